@@ -256,8 +256,12 @@ def signatures(max_params):
 
 
 def gen(ctx):
-    full = ctx.thorough
-    sigs = signatures(4 if full else 3)
+    deep = ctx.thorough
+    full = True
+    sigs = signatures(4)
+    if deep:
+        five = [s for s in signatures(5) if len(s) == 5]
+        sigs = sigs + ctx.rng.sample(five, min(len(five), 60))
     k = 0
     for ps in sigs:
         n = len(ps)
